@@ -17,6 +17,20 @@ func parseStrUint(buf []byte) (u uint) {
 	return
 }
 
+// subSecMillis converts the fractional-second digits of a SubSecTime value to
+// milliseconds. Only the first three digits are significant at this resolution.
+func subSecMillis(buf []byte) (ms uint16) {
+	scale := uint16(100)
+	for i := 0; i < len(buf) && scale > 0; i++ {
+		if buf[i] < '0' || buf[i] > '9' {
+			break
+		}
+		ms += uint16(buf[i]-'0') * scale
+		scale /= 10
+	}
+	return ms
+}
+
 // trimNULBuffer removes trailing bytes from Buffer
 func trimNULBuffer(buf []byte) []byte {
 	for i := len(buf) - 1; i >= 0; i-- {
